@@ -4,6 +4,12 @@ A grid is described by a JSON-able *spec* (a dict) and built by :func:`build`:
 
     {"kind": "cart" | "tri" | "tet",       CartGrid / StructuredTriangleGrid /
                                             StructuredTetrahedralGrid on the unit box
+             | "prism",                     grid_extrusion.extrude_grid of a
+                                            StructuredTriangleGrid(n) with node heights
+                                            "z" (z[0] = 0, z[-1] = 1): 3-d cells with
+                                            triangular AND quadrilateral faces; "pert"
+                                            moves nodes of the 2-d base grid (columns stay
+                                            vertical, so all faces stay planar)
      "n": [nx(, ny(, nz))],
      "pert": [[node, [ox, oy(, oz)]], ...], node offsets in units of 0.1*h per axis
                                             (h = 1/n in that axis); lattice {0,+-1}^d
@@ -55,7 +61,7 @@ EMBED = {
 
 
 def dim_of(spec) -> int:
-    return len(spec["n"])
+    return 3 if spec["kind"] == "prism" else len(spec["n"])
 
 
 def spec_ok(spec) -> bool:
@@ -66,12 +72,17 @@ def spec_ok(spec) -> bool:
         return False
     if spec["kind"] == "tet" and d != 3:
         return False
+    if spec["kind"] == "prism":
+        z = spec.get("z", [])
+        return len(spec["n"]) == 2 and len(z) >= 2 and z[0] == 0 and z[-1] == 1 and all(a < b for a, b in zip(z, z[1:]))
     return True
 
 
 def name(spec) -> str:
-    k = {"cart": "C", "tri": "T", "tet": "Tet"}[spec["kind"]]
+    k = {"cart": "C", "tri": "T", "tet": "Tet", "prism": "Prism"}[spec["kind"]]
     s = k + "(" + ",".join(str(i) for i in spec["n"]) + ")"
+    if spec["kind"] == "prism":
+        s = s[:-1] + ";z=" + ",".join(f"{v:g}" for v in spec["z"]) + ")"
     if spec.get("pert"):
         s += ("~np~" if spec.get("nonplanar_ok") else "~") + ";".join(f"{i}:{','.join(str(o) for o in off)}" for i, off in spec["pert"])
     if spec.get("set"):
@@ -91,6 +102,14 @@ def _raw(spec):
     n = list(spec["n"])
     d = len(n)
     kind = spec["kind"]
+    if kind == "prism":
+        base = pp.StructuredTriangleGrid(np.array(n), physdims=[1.0, 1.0])
+        h = 1.0 / np.array(n, float)
+        for i, off in spec.get("pert", []):
+            base.nodes[:2, int(i)] += 0.1 * h * np.array(off, float)
+        base.compute_geometry()
+        g, _, _ = pp.grid_extrusion.extrude_grid(base, np.array(spec["z"], float))
+        return g
     if kind == "cart":
         return pp.CartGrid(np.array(n), physdims=[1.0] * d)
     if kind == "tri":
@@ -109,6 +128,10 @@ def reference_nodes(spec) -> np.ndarray:
     n = list(spec["n"])
     d = len(n)
     axes = [np.linspace(0, 1, k + 1) for k in n]
+    if spec["kind"] == "prism":  # layer-major: the 2-d node set repeated for every height
+        X, Y = np.meshgrid(axes[0], axes[1])
+        z = np.array(spec["z"], float)
+        return np.vstack([np.tile(X.ravel(), z.size), np.tile(Y.ravel(), z.size), np.repeat(z, X.size)])
     if d == 1:
         x = axes[0]
         return np.vstack([x, np.zeros_like(x), np.zeros_like(x)])
@@ -140,11 +163,17 @@ def build(spec):
     g = _raw(spec)
     d = g.dim
     ref = reference_nodes(spec)
+    prism = spec["kind"] == "prism"
+    if prism and spec.get("pert"):  # replica of the base-grid perturbation, column-wise
+        nb = ref.shape[1] // len(spec["z"])
+        hb = 1.0 / np.array(spec["n"], float)
+        for i, off in spec["pert"]:
+            ref[:2, int(i) :: nb] += (0.1 * hb * np.array(off, float))[:, None]
     if g.nodes.shape != ref.shape or np.abs(g.nodes - ref).max() > 1e-14:
         raise RuntimeError("node numbering of the structured grid differs from the harness replica")
     nodes = g.nodes.copy()
     h = 1.0 / np.array(spec["n"], float)
-    for i, off in spec.get("pert", []):
+    for i, off in [] if prism else spec.get("pert", []):
         nodes[:d, int(i)] += 0.1 * h * np.array(off, float)
     for i, pos in spec.get("set", []):
         nodes[:d, int(i)] = np.array(pos, float)
